@@ -8,15 +8,18 @@
    The world is what the run sees after the configuration has been resolved: the decode
    status of the config file, the recursive roots with their sub-packages, the loaded
    packages with their discovered interfaces and, per (interface, config entry), the
-   effective output path / package name / template; the package-level settings that the
-   write loop uses (template, schema, force-file-write), the root-level formatter, the
-   file system and its permission faults.  Go map iteration orders are arguments: the
-   world lists recursive roots and packages in the order they are visited, [run] takes
-   the iteration order of the output-file map.
+   effective output path / package name / template / schema settings / formatter /
+   force-file-write; what each template name denotes; whether the package-level templated
+   values can be evaluated; the file system and its permission faults.  Go map iteration
+   orders are arguments: the world lists recursive roots and packages in the order they are
+   visited, [run] takes the iteration order of the output-file map.
 
-   The model describes the tree WITH the C09 repairs (fixes/c09-*.diff): an invalid
-   exclude-subpkg-regex is an error, load errors of file-less packages are reported,
-   go.mod is read by modfile (Cfg/GoMod.v).
+   The model describes /repo with the repairs of fixes/ applied, in particular: an invalid
+   exclude-subpkg-regex is an error and the list is the recursive package's own; load errors of
+   file-less packages are reported; go.mod is read by modfile (Cfg/GoMod.v); the settings of an
+   output file (schema settings, formatter, force-file-write) are those of the first mock added
+   to it and its template is the collection's (c08-file-level-config); an unknown formatter name
+   on any mock is refused when the mock is added (c09-formatter-per-mock).
    No proofs in this file. *)
 From Mk Require Import Lib.Bytes Cfg.Fs Cfg.GoMod.
 
@@ -185,11 +188,15 @@ Fixpoint add_req (m : list coll) (p : package) (q : request) : option (list coll
     else option_map (cons k) (add_req t p q)
   end.
 
+(* Append also refuses a mock whose formatter name is unknown (fixes/c09-formatter-per-mock.diff:
+   without it only the first mock's formatter is ever looked at) *)
+Definition formatter_known (f : formatter) : bool := match f with FUnknown => false | _ => true end.
+
 Fixpoint add_reqs (m : list coll) (p : package) (qs : list request) : option (list coll) :=
   match qs with
   | [] => Some m
   | q :: t =>
-    if tstatus_ok (q_tstatus q) then
+    if tstatus_ok (q_tstatus q) && formatter_known (q_formatter q) then
       match add_req m p q with
       | Some m' => add_reqs m' p t
       | None => None
@@ -411,7 +418,7 @@ Definition has_class (w : world) (c : fclass) : Prop :=
   | MissingRemoteTemplate => exists p q, In (p, q) (selected_reqs w) /\
                                    ti_kind (w_tinfo w (q_template q)) = TRemote /\
                                    ti_found (w_tinfo w (q_template q)) = false
-  | UnknownFormatter => exists x g, file_gov w x = Some g /\ q_formatter g = FUnknown
+  | UnknownFormatter => exists p q, In (p, q) (selected_reqs w) /\ q_formatter q = FUnknown
   | ConfigUnreadable => w_cfg w = CfgNotFound \/ w_cfg w = CfgBadYaml \/ w_cfg w = CfgBadType
   | UnknownKey => w_cfg w = CfgUnknownKey
   | BadRegexSubpkg => exists r s, In r (w_roots w) /\ In s (rr_subpkgs r) /\
@@ -446,7 +453,7 @@ Definition has_class (w : world) (c : fclass) : Prop :=
    (ord = iteration order of the map: every key occurs) and package paths to be map keys *)
 Definition needs_visit (c : fclass) : bool :=
   match c with
-  | UnknownTemplate | MissingRemoteTemplate | UnknownFormatter | SchemaMissing | SchemaReject
+  | UnknownTemplate | MissingRemoteTemplate | SchemaMissing | SchemaReject
   | TemplateSyntax | TemplateExecution | InvalidGoOutput | PrepareFailure
   | CyclicTemplate | BadTemplatedValue => true
   | _ => false
